@@ -463,12 +463,21 @@ func pointerElementsProbe(o *Oracle, prop, kind string, salt int) {
 // ---- zero-size element types -----------------------------------------------------------------------------
 
 // struct{} (and [0]int) are comparable element types of size zero: all values are equal, sequences still
-// have lengths. The probe runs the sequence containers and sets over struct{}.
+// have lengths. The probe runs the sequence containers and sets over struct{}, and over an element type
+// wider than any small-element fast path ([17]int64: 136 bytes), all elements being the zero value.
 func zeroSizeProbe(o *Oracle, prop, kind string) {
-	type E = struct{}
-	fail := func(what string, got, want any) {
-		o.Fail(prop, "zero-size-elements", "%s over struct{} elements: %s = %v, want %v", kind, what, got, want)
+	sizeProbe[struct{}](o, prop, kind, "struct{}")
+	sizeProbe[[17]int64](o, prop, kind, "[17]int64")
+}
+
+func sizeProbe[E comparable](o *Oracle, prop, kind, tname string) {
+	if o.Failed() {
+		return
 	}
+	fail := func(what string, got, want any) {
+		o.Fail(prop, "element-size", "%s over %s elements: %s = %v, want %v", kind, tname, what, got, want)
+	}
+	var zero E
 	eq := func(what string, got, want any) bool {
 		if !o.Failed() && fmt.Sprint(got) != fmt.Sprint(want) {
 			fail(what, got, want)
@@ -478,12 +487,12 @@ func zeroSizeProbe(o *Oracle, prop, kind string) {
 	switch familyOf(kind) {
 	case "list":
 		l := makeList[E](kind)
-		l.Add(E{}, E{}, E{})
-		l.Insert(1, E{})
+		l.Add(zero, zero, zero)
+		l.Insert(1, zero)
 		eq("Size after Add x3, Insert", l.Size(), 4)
 		eq("len(Values())", len(l.Values()), 4)
-		eq("Contains", l.Contains(E{}, E{}), true)
-		eq("IndexOf", l.(indexOfer[E]).IndexOf(E{}), 0)
+		eq("Contains", l.Contains(zero, zero), true)
+		eq("IndexOf", l.(indexOfer[E]).IndexOf(zero), 0)
 		l.Remove(3)
 		l.Remove(0)
 		_, ok := l.Get(1)
@@ -492,7 +501,7 @@ func zeroSizeProbe(o *Oracle, prop, kind string) {
 		eq("Get(2) after two removals", ok, false)
 		l.Clear()
 		eq("Size after Clear", l.Size(), 0)
-		eq("Contains on empty", l.Contains(E{}), false)
+		eq("Contains on empty", l.Contains(zero), false)
 	case "set":
 		var s sets.Set[E]
 		switch kind {
@@ -503,14 +512,14 @@ func zeroSizeProbe(o *Oracle, prop, kind string) {
 		default:
 			return
 		}
-		s.Add(E{}, E{})
-		s.Add(E{})
+		s.Add(zero, zero)
+		s.Add(zero)
 		eq("Size after three Adds", s.Size(), 1)
 		eq("len(Values())", len(s.Values()), 1)
-		eq("Contains", s.Contains(E{}), true)
-		s.Remove(E{})
+		eq("Contains", s.Contains(zero), true)
+		s.Remove(zero)
 		eq("Size after Remove", s.Size(), 0)
-		eq("Contains after Remove", s.Contains(E{}), false)
+		eq("Contains after Remove", s.Contains(zero), false)
 	case "sq":
 		var put func(E)
 		var take func() (E, bool)
@@ -533,7 +542,7 @@ func zeroSizeProbe(o *Oracle, prop, kind string) {
 			put, take, c = x.Enqueue, x.Dequeue, x
 		}
 		for i := 0; i < 5; i++ {
-			put(E{})
+			put(zero)
 		}
 		want := 5
 		if kind == "circularbuffer" {
